@@ -34,6 +34,36 @@ CLAIMED = {
          "trusted base: Display output as structural identity",
          "runtime monitoring: algebraic-law monitor over generated and mutated object pairs"),
 }
+
+CLAIMED.update({
+ "C07": ("held on N executions: the lifted policy of generated descriptors evaluated in sampled asset worlds equals the existence of a STANDARD-valid witness (library witness executed in the VM, else lazy search to exhaustion); budget exhaustion is inconclusive",
+         "trusted base: refvm + lazy search, pol.rs evaluator and own policy parser; lift() refusing a descriptor is counted, not judged",
+         "runtime monitoring: reference-model monitor (policy truth vs witness existence in an independent Script VM)"),
+ "C08": ("held on N executions: every output of every compiler entry point for generated policies compared with the input policy on full truth tables, walked by an independent sanity/ context-rule checker, re-parsed, and sampled outputs spent in the VM",
+         "trusted base: pol.rs evaluator, frag.rs walker and spec typing model; optimality not judged; compiler panics are judged by C11",
+         "runtime monitoring: differential execution against a truth-table model + independent AST walker + VM ground truth on samples"),
+ "C10": ("held on N executions: string round trips of every text-bearing type incl. checksum model and ALL single-character substitutions of one checksummed string per case",
+         "trusted base: oracle::descsum (BIP-380 transcription), own miniscript/policy text parsers",
+         "runtime monitoring: round-trip and checksum-model monitor over generated and mutated strings"),
+ "C12": ("held on N executions: every object accepted by any entry point from hostile generated fragments was re-checked by an independent AST walker; single-switch tightening compared with independent defect predicates",
+         "trusted base: frag.rs walker + oracle::spec_types; known finding: sh() accepts or_i / d: which the Legacy miniscript parser rejects (pinned by a repository test)",
+         "runtime monitoring: invariant monitor at the client boundary of every accepting entry point"),
+ "C14": ("held on N histories: PSBT operation histories with snapshots after each call checked against a sequential model (atomic failure, final inputs frozen, idempotence, order independence, single == all) and every final input / extracted tx executed in the VM",
+         "trusted base: refvm, oracle::bip341/bip32; signer-side field additions are harness actions, not judged",
+         "runtime monitoring: history recording at the client boundary + offline sequential-model checker + VM execution"),
+ "C15": ("held on N trees incl. ALL shapes <= 6 leaves and chains to the depth limit: merkle root, output key, control blocks and leaf order against the BIP-341 model; spend_info cache raced by 16 threads",
+         "trusted base: oracle::bip341 (validated against BIP-341 wallet vectors in selftest); tagged hashes / secp tweak from dependencies",
+         "runtime monitoring: reference-model monitor + concurrent stress on the shared cache with pointer-equality oracle"),
+ "C16": ("held on N executions: scripts, addresses and derived keys of generated descriptors of every wrapper against byte templates and a BIP-32 model",
+         "trusted base: oracle::bip32 (CKDpub/CKDpriv transcription), template builders; secp256k1/HMAC from dependencies",
+         "runtime monitoring: reference-model monitor (templates and BIP-32 model)"),
+ "C17": ("held on N executions: plans computed from generated Assets were satisfied with exactly the planned material and executed in the VM; plan existence compared with key-source coverage; sizes with measured witnesses",
+         "trusted base: refvm; availability modelled by the library's own key-source matching rule; known finding: Plan::witness_size omits the witness script",
+         "runtime monitoring: reference-model monitor (plan => VM-valid witness from the declared assets only)"),
+ "C20": ("held on N executions: translation laws (identity, substitution, composition, call multiset, failure propagation) and key-iteration laws on generated descriptors/policies",
+         "trusted base: textual token substitution on the Display form as the model of translation",
+         "runtime monitoring: algebraic-law monitor with a call-recording translator (exactly-once over key positions)"),
+})
 REASON_PENDING = "check not built yet in this round (runtime-monitoring design in DESIGN.md section 6); will be claimed when its monitor lands"
 
 fixes = subprocess.run("git -C /repo log --format=%h --grep='^fix:'", shell=True, capture_output=True, text=True).stdout.split()
